@@ -296,6 +296,23 @@ def _probe_pool(n_cpu, compression, **kw):
     return run
 
 
+def _probe_compression_history():
+    """real stack: results must not depend on which compression values earlier calls in the same process used (several compressions give
+    the same number of composition bins with a different residue-to-bin map: 7/8/9 -> 3 bins, 10..19 -> 2, 5/6 -> 4)"""
+    import pyrepseq
+    first = ["CASSIIIIF", "CASSLLLLF", "CAWYVF", "CDEGHKF"]
+    second = ["CASSIIIIF", "CASSIIIKF", "CASSLLLLF", "CASSLLLMF", "CAWYVF", "CAWYVE", "CDEGHKF", "CDEGHKW", "CANQPRST", "CANQPRSM"]
+    want = hc.want_triplets(second, second, hc.lev, 1, True)
+    for c1, c2 in [(7, 9), (9, 7), (8, 7), (10, 19), (19, 11), (5, 6), (6, 5), (4, 3), (1, 20), (20, 25)]:
+        for n_cpu in (1, 2):
+            pyrepseq.kdtree(list(first), max_edits=1, compression=c1, n_cpu=n_cpu)
+            got = pyrepseq.kdtree(list(second), max_edits=1, compression=c2, n_cpu=n_cpu)
+            ok, detail = hc.compare_triplets(got, want)
+            if not ok:
+                return False, (f"[call-history probe] kdtree({first}, compression={c1}, n_cpu={n_cpu}) followed by kdtree({second}, max_edits=1, compression={c2}, n_cpu={n_cpu}): {detail}")
+    return True, "call-history probe ok"
+
+
 def conditions(tier):
     out = []
     for shape in [(1,), (1, 1), (2, 1), (1, 1, 1), (2, 1, 1)]:
@@ -344,4 +361,6 @@ def conditions(tier):
         out.append(hc.probe_condition(f"C11/probe/kdtree/n_cpu={n_cpu}/compression={comp}/6000-sequences",
                                       f"kdtree with the real multiprocessing.Pool, n_cpu={n_cpu}, compression={comp}, 6 005 sequences with five planted pairs: exact triplet set",
                                       _probe_pool(n_cpu, comp)))
+    out.append(hc.probe_condition("C11/probe/kdtree/compression-history", "two kdtree calls in one process with different compression values that share a bin count (7/9, 8/7, 10/19, 5/6, ...), "
+                                  "the second on a superset of the first call's sequences, n_cpu 1 and 2, against the brute-force Levenshtein oracle", _probe_compression_history))
     return out
